@@ -1200,4 +1200,111 @@ theorem fit_prints :
   exact key _ _ (by simpa using p1)
 end timerprints
 
+/-! ### every handler invocation is for the event emitted last -/
+
+/-- the event being dispatched after the log `l` (the last one emitted), `cur` if none was emitted in `l` -/
+def curAfter (cur : Option Event) : List Entry → Option Event
+  | [] => cur
+  | .emit ev :: l => curAfter (some ev) l
+  | _ :: l => curAfter cur l
+
+/-- every handler invocation in `l` is for the event emitted last before it -/
+def callsOK (cur : Option Event) : List Entry → Bool
+  | [] => true
+  | .emit ev :: l => callsOK (some ev) l
+  | .call _ ev _ _ :: l => (cur == some ev) && callsOK cur l
+  | _ :: l => callsOK cur l
+
+theorem curAfter_append (cur : Option Event) (l₁ l₂ : List Entry) :
+    curAfter cur (l₁ ++ l₂) = curAfter (curAfter cur l₁) l₂ := by
+  induction l₁ generalizing cur with
+  | nil => rfl
+  | cons x l ih => cases x <;> simp [curAfter, ih]
+
+theorem callsOK_append (cur : Option Event) (l₁ l₂ : List Entry) :
+    callsOK cur (l₁ ++ l₂) = (callsOK cur l₁ && callsOK (curAfter cur l₁) l₂) := by
+  induction l₁ generalizing cur with
+  | nil => simp [callsOK, curAfter]
+  | cons x l ih => cases x <;> simp [callsOK, curAfter, ih, Bool.and_assoc]
+
+theorem curAfter_none (l : List Entry) (cur : Option Event) :
+    curAfter cur l = ((events l).getLast?).or cur := by
+  induction l generalizing cur with
+  | nil => simp [curAfter]
+  | cons x l ih =>
+    cases x <;> simp [curAfter, ih]
+    rename_i ev
+    cases h : (events l).getLast? with
+    | none => simp [List.getLast?_eq_none_iff.mp h]
+    | some y => 
+      have hne : events l ≠ [] := by intro h0; rw [h0] at h; simp at h
+      rw [List.getLast?_cons_of_ne_nil hne] <;> simp [h]
+
+section callsok
+variable (c : Cfg) (R : Req)
+
+theorem dispatchCbs_callsOK (ev : Event) (ver : Nat) (cbs : List Nat) (stop : Bool) :
+    callsOK (some ev) (dispatchCbs R ev ver cbs stop).1 = true ∧
+    curAfter (some ev) (dispatchCbs R ev ver cbs stop).1 = some ev := by
+  induction cbs generalizing stop with
+  | nil => simp [dispatchCbs, callsOK, curAfter]
+  | cons i rest ih => simp [dispatchCbs, callsOK, curAfter, ih]
+
+theorem timerHandle_callsOK (ev : Event) (s : S) (cur : Option Event) :
+    callsOK cur (timerHandle ev s).1 = true ∧ curAfter cur (timerHandle ev s).1 = cur := by
+  unfold timerHandle
+  split <;> (try split) <;> simp [callsOK, curAfter]
+
+theorem dispatch_callsOK (ev : Event) (s : S) (cur : Option Event) :
+    callsOK cur (dispatch c R ev s).1 = true := by
+  unfold dispatch
+  simp only [callsOK, callsOK_append, (dispatchCbs_callsOK R ev s.ver c.cbs s.stop).1,
+    (dispatchCbs_callsOK R ev s.ver c.cbs s.stop).2, Bool.true_and]
+  split <;> simp [callsOK, (timerHandle_callsOK _ _ _).1]
+
+theorem batchStep_callsOK (e : Int) (b : Nat) (s : S) (cur : Option Event) :
+    callsOK cur (batchStep c R e b s).1 = true := by
+  unfold batchStep
+  simp [callsOK_append, callsOK, dispatch_callsOK]
+
+theorem batchLoop_callsOK (e : Int) (bs : List Nat) (s : S) (cur : Option Event) :
+    callsOK cur (batchLoop c R e bs s).1 = true := by
+  induction bs generalizing s cur with
+  | nil => simp [batchLoop, callsOK]
+  | cons b rest ih =>
+    cases h : (batchStep c R e b s).2.stop
+    · rw [batchLoop_cons_go c R e b rest s h]; simp [callsOK_append, batchStep_callsOK, ih]
+    · rw [batchLoop_cons_stop c R e b rest s h]; exact batchStep_callsOK c R e b s cur
+
+theorem schedPhase_callsOK (e : Int) (s : S) (cur : Option Event) :
+    callsOK cur (schedPhase c e s).1 = true := by
+  unfold schedPhase; split <;> simp [callsOK]
+
+theorem runEpoch_callsOK (e : Int) (s : S) (cur : Option Event) :
+    callsOK cur (runEpoch c R e s).1 = true := by
+  unfold runEpoch
+  simp [callsOK_append, callsOK, dispatch_callsOK, batchLoop_callsOK, schedPhase_callsOK]
+
+theorem epochLoop_callsOK (es : List Int) (s : S) (cur : Option Event) :
+    callsOK cur (epochLoop c R es s).1 = true := by
+  induction es generalizing s cur with
+  | nil => simp [epochLoop, callsOK]
+  | cons e rest ih =>
+    cases h : (runEpoch c R e s).2.stop
+    · rw [epochLoop_cons_go c R e rest s h]; simp [callsOK_append, runEpoch_callsOK, ih]
+    · rw [epochLoop_cons_stop c R e rest s h]; exact runEpoch_callsOK c R e s cur
+
+theorem fit_callsOK (stop₀ : Bool) : callsOK none (fit c R stop₀).1 = true := by
+  unfold fit
+  cases stop₀ <;> simp [callsOK_append, callsOK, dispatch_callsOK, epochLoop_callsOK]
+end callsok
+
+/-- in a log whose invocations are all for the event emitted last, the event of an invocation is the last one emitted before it -/
+theorem callsOK_split {cur : Option Event} {pre post : List Entry} {i : Nat} {ev : Event} {seen : Bool} {v : Nat}
+    (h : callsOK cur (pre ++ Entry.call i ev seen v :: post) = true) : curAfter cur pre = some ev := by
+  rw [callsOK_append] at h
+  simp only [callsOK, Bool.and_eq_true, beq_iff_eq] at h
+  exact h.2.1
+
+
 end QV.Train
